@@ -85,3 +85,65 @@ Proof.
   rewrite forallb_forall in T. specialize (T pb Hpb).
   rewrite forallb_forall in T. apply T. destruct ia; simpl; auto.
 Qed.
+
+(* ---------------------------------------------------------------- retry rule *)
+Lemma retry_policy_spec : forall p p',
+  retry_policy false p = RRetry p' ->
+  retrying p' = true /\ retry_mode p' = Allow /\ st_mode p' = st_mode p /\
+  ((retry_mode p = Deny /\ hs_mode p' = Deny) \/ (retry_mode p = Require /\ hs_mode p' = Require)).
+Proof.
+  intros p p' H. unfold retry_policy in H.
+  destruct (retry_mode p) eqn:R; try discriminate.
+  - destruct (mode_eqb (st_mode p) Require); try discriminate. inversion H; subst; cbn. auto 10.
+  - inversion H; subst; cbn. auto 10.
+Qed.
+
+Lemma retry_policy_incoming : forall p, retry_policy true p = RNone.
+Proof. reflexivity. Qed.
+
+(* an outgoing attempt that the peer closes at failure point fp:
+   0 = before the peer's key (MSE: 50 of 96 bytes; plain: 20 of the 48 bytes of part 1) was recognised,
+   1 = right after it (96 key bytes; the 48 bytes up to and including the info hash) *)
+Definition closed_attempt (p : policy) (fp : nat) : out :=
+  let s0 := init_out p in
+  let mse := match wlog s0 with WKeyPad :: _ => true | _ => false end in
+  let stream := if mse then firstn (if fp =? 0 then 50 else 96) keyc
+                else clr (firstn (if fp =? 0 then 20 else 48) (hs_bytes 1 false false)) in
+  match feed bfb0 s0 stream with
+  | Cont s1 k1 => feed_close bfb0 s1 k1
+  | o => o
+  end.
+
+Definition first_is_mse (p : policy) : bool := prefer_enc_hs p.
+Definition retry_flag (p : policy) : bool := if first_is_mse p then allow_plain_hs p else allow_enc_hs p.
+
+Definition retry_cell (p : policy) (fp : nat) : bool :=
+  match closed_attempt p fp with
+  | Failed s _ _ =>
+    match retry_policy false (pol s) with
+    | RRetry p2 =>
+      (* retried: only when the flag was set and nothing was recognised; flipped type; never again *)
+      retry_flag p && (fp =? 0) && retrying p2 && negb (Bool.eqb (first_is_mse p2) (first_is_mse p)) &&
+      mode_eqb (st_mode p2) (st_mode p) &&
+      forallb (fun fp2 => match closed_attempt p2 fp2 with
+                          | Failed s2 _ _ => match retry_policy false (pol s2) with RNone => true | _ => false end
+                          | _ => false end) [0; 1]
+    | RNone => negb (retry_flag p && (fp =? 0))
+    | RThrow => mode_eqb (hs_mode p) Prefer && mode_eqb (st_mode p) Require && (fp =? 0)
+    end
+  | _ => false
+  end.
+
+Lemma retry_all : forallb (fun p => forallb (retry_cell p) [0; 1]) all_policies = true.
+Proof. vm_compute. reflexivity. Qed.
+
+Lemma retry_rule_partial : forall p fp, In p all_policies -> In fp [0; 1] -> retry_cell p fp = true.
+Proof.
+  intros p fp Hp Hf. pose proof retry_all as T. rewrite forallb_forall in T. specialize (T p Hp).
+  rewrite forallb_forall in T. apply T. exact Hf.
+Qed.
+
+Example retry_rule_nonvacuous :
+  exists s t e p2, closed_attempt (mkPolicy Prefer Allow false Allow) 0 = Failed s t e /\
+                   retry_policy false (pol s) = RRetry p2 /\ hs_mode p2 = Deny.
+Proof. vm_compute. repeat eexists. Qed.
